@@ -327,6 +327,12 @@ impl<K: Hash + Eq, V, E: OnEvictCallback, S: BuildHasher> RawLRU<K, V, E, S> {
                 PutResult::Update(v)
             }
             None => {
+                if self.cap == 0 {
+                    // a cache resized to capacity 0 retains nothing (and has no LRU node to
+                    // recycle): hand the pair straight back as evicted
+                    return PutResult::Evicted { key: k, value: v };
+                }
+
                 let (replaced, node) = self.replace_or_create_node(k, v);
                 let node_ptr: *mut EntryNode<K, V> = node.as_ptr();
 
